@@ -63,8 +63,15 @@ def port_kinds(reduced=False):
     kinds.append(('nested', nested, t3))
     # 4. glob port over pre-existing children
     glob = lambda: {'*': {'a': leaf(), 'b': leaf()}}  # noqa
-    kinds.append(('glob', glob, [(('g',), 0), (('..', 'gg'), 1),
-                                 (('s', 'g'), 0)]))
+    kinds.append(('glob', glob, [
+        (('g',), 0), (('..', 'gg'), 1), (('s', 'g'), 0),
+        # dictionary topologies: the children's variables renamed, and a
+        # glob dictionary with its own _path (children of another store)
+        ({'_path': ('g',), '*': {'a': ('ra',), 'b': ('rb',)}}, 0),
+        ({'_path': ('g',), '*': {'_path': ('..', 'g2'), 'a': ('ra',),
+                                 'b': ('deep', 'b')}}, 0),
+        ({'_path': ('..', 'gg'), '*': {'_path': ('..', 'c2', 'g3'),
+                                       'a': ('a',), 'b': ('rb',)}}, 1)]))
     globleaf = lambda: {'*': leaf()}  # noqa
     kinds.append(('globleaf', globleaf, [(('gl',), 0), (('..', 'gl2'), 1)]))
     if reduced:
